@@ -158,6 +158,25 @@ def header_modules(header):
     return mods
 
 
+def realsock(ctx, scenarios):
+    """harness/realsock.py in its own interpreter (real event loop, loopback sockets): {scenario: 'ok' | what went wrong}"""
+    import json as _json
+    try:
+        out = subprocess.run([PY, os.path.join(VERIF, "harness", "realsock.py")] + list(scenarios), stdout=subprocess.PIPE, stderr=subprocess.DEVNULL,
+                             timeout=240, text=True, env=dict(os.environ, VERIF_REPO=REPO)).stdout
+        line = [l for l in out.splitlines() if l.startswith("@@")]
+        res = _json.loads(line[-1][2:]) if line else {"/".join(scenarios): "the probe produced no result"}
+    except Exception as e:  # noqa
+        res = {"/".join(scenarios): f"the probe failed: {type(e).__name__}"}
+    ctx.evals += len(res)
+    return res
+
+
+def realsock_witness(res):
+    bad = {k: v for k, v in res.items() if v != "ok"}
+    return dict(kind="real-socket", scenario=sorted(bad)[0], problem=bad[sorted(bad)[0]], all_failing={k: v[:160] for k, v in bad.items()}) if bad else None
+
+
 def check_proofs(ctx: Ctx, props_file, extra_targets=(), headers=()):
     """Step 1 of every check.  Sets ctx.proof = dict(ok, theorems, axioms, failed, errors, obligations).
     `headers`: the Coq headers of the case files of this check; the modules they import are built too."""
